@@ -26,8 +26,8 @@ for arg in sys.argv[1:]:
         res['error'] = 'patch does not apply: ' + a.stderr[:200]; print(json.dumps(res), flush=True); continue
     r = sh(f'cd {wt} && {env} cargo test --offline --lib --test integration_test 2>&1 | grep -E "^test result|^error"')
     res['suite_ok'] = r.stdout.count('test result: ok') >= 2 and 'FAILED' not in r.stdout and 'error' not in r.stdout
-    r = sh(f'cd {wt} && {env} cargo test --offline --test demo 2>&1 | grep -E "^test result"')
-    res['demo_fails'] = 'FAILED' in r.stdout
+    r = sh(f'cd {wt} && {env} cargo test --offline --test demo 2>&1')
+    res['demo_fails'] = r.returncode != 0 and ('FAILED' in r.stdout or 'overflowed its stack' in r.stdout or 'SIGABRT' in r.stdout or 'SIGSEGV' in r.stdout)
     os.remove(f'{wt}/tests/demo.rs')
     # harness copy against the patched worktree
     os.makedirs(hx, exist_ok=True)
